@@ -47,7 +47,7 @@ def verify_rule_load(run):
         H0 = init_heap(sc)
         self_, eng = z3.Const("self", Ref), z3.Const("engine", Ref)
         ex = HeapExec(src, "rule", sc, contracts=dict(LOADERS), interfaces=W.INTERFACES,
-                      inline={"Rule.deactivate", "Antecedent.unload", "Consequent.unload"}, fnname=fq)
+                      inline={"Rule.deactivate", "Antecedent.unload", "Consequent.unload", "Antecedent.is_loaded", "Consequent.is_loaded", "Rule.is_loaded"}, fnname=fq)
         pre = wf_rule(H0, self_)
         env = {"self": RefV(self_, "Rule")}
         if meth == "load":
